@@ -207,7 +207,7 @@ fn _unused(_: &mut dyn Read, _: &mut dyn Write) {}
 pub fn ctor(args: &[&str]) -> Option<Vec<String>> {
     use lettre::transport::smtp::authentication::Mechanism;
     let kind = *args.first()?;
-    let arg = if args.len() > 1 && args[1] != "-" { unhex_str(args[1])? } else { String::new() };
+    let arg = if kind != "poolcfg" && args.len() > 1 && args[1] != "-" { unhex_str(args[1])? } else { String::new() };
     fn facts(dbg: &str) -> String {
         let port = dbg.split("port: ").nth(1).and_then(|s| s.split(|c: char| !c.is_ascii_digit()).next()).unwrap_or("?").to_string();
         let tls = dbg.split("tls: ").nth(1).and_then(|s| s.split(|c: char| !c.is_ascii_alphabetic()).next()).unwrap_or("?").to_string();
@@ -224,6 +224,21 @@ pub fn ctor(args: &[&str]) -> Option<Vec<String>> {
             r(SmtpTransport::starttls_relay(&arg).map(|b| facts(&format!("{b:?}"))).map_err(|_| ())),
             r(AsyncSmtpTransport::<Tokio1Executor>::starttls_relay(&arg).map(|b| facts(&format!("{b:?}"))).map_err(|_| ())),
         ],
+        // `poolcfg <min_idle> <max_size>`: the two setters in both orders; reports `min,max` as the Debug text shows them
+        "poolcfg" => {
+            let a: u32 = args.get(1)?.parse().ok()?;
+            let b: u32 = args.get(2)?.parse().ok()?;
+            let read = |dbg: String| -> String {
+                let num = |key: &str| -> String {
+                    dbg.split(key).nth(1).map(|t| t.chars().take_while(|c| c.is_ascii_digit()).collect::<String>()).unwrap_or_default()
+                };
+                format!("{},{}", num("min_idle: "), num("max_size: "))
+            };
+            vec![
+                read(format!("{:?}", PoolConfig::new().min_idle(a).max_size(b))),
+                read(format!("{:?}", PoolConfig::new().max_size(b).min_idle(a))),
+            ]
+        }
         "localhost" => {
             let rt = tokio::runtime::Builder::new_current_thread().enable_all().build().ok()?;
             let a = {
@@ -294,7 +309,7 @@ fn read_line_from<S: Read>(s: &mut S, done: &AtomicBool) -> Option<String> {
 }
 
 /// SMTP over `s` to the end, going silent at `at` (`g` instead of the greeting, `e` / `s` / `m` / `z` instead of the reply to
-/// EHLO / STARTTLS / MAIL / the end of data). Returns true when the client asked for STARTTLS and got its 220.
+/// EHLO / STARTTLS / AUTH (`a`) / MAIL / the end of data). Returns true when the client asked for STARTTLS and got its 220.
 fn stall_dialogue<S: Read + Write>(s: &mut S, greet: bool, offer_starttls: bool, at: Option<char>, done: &AtomicBool) -> bool {
     if greet {
         if at == Some('g') {
@@ -328,8 +343,14 @@ fn stall_dialogue<S: Read + Write>(s: &mut S, greet: bool, offer_starttls: bool,
             if offer_starttls {
                 b"250-srv\r\n250 STARTTLS\r\n"
             } else {
-                b"250-srv\r\n250 8BITMIME\r\n"
+                b"250-srv\r\n250-AUTH PLAIN\r\n250 8BITMIME\r\n"
             }
+        } else if up.starts_with("AUTH") {
+            if at == Some('a') {
+                hold(s, done);
+                return false;
+            }
+            b"235 authenticated\r\n"
         } else if up.starts_with("STARTTLS") {
             if at == Some('s') {
                 hold(s, done);
@@ -446,6 +467,8 @@ pub fn tstall(args: &[&str]) -> Option<Vec<String>> {
         Err(_) => "n",
         Ok(_) => "-",
     };
+    // position `a`: the transports authenticate (PLAIN), the peer goes silent instead of answering AUTH
+    let creds = if at == 'a' { Some(Credentials::new("user".to_string(), "secret".to_string())) } else { None };
     let mut out: Vec<String> = Vec::new();
     match client {
         // a connection of its own, set up with a long timeout; T is configured afterwards with `set_timeout`
@@ -485,13 +508,16 @@ pub fn tstall(args: &[&str]) -> Option<Vec<String>> {
         "s" => {
             let (tx, rx) = std::sync::mpsc::channel();
             std::thread::spawn(move || {
-                let t = SmtpTransport::builder_dangerous(crate::util::lo())
+                let mut b = SmtpTransport::builder_dangerous(crate::util::lo())
                     .port(port)
                     .hello_name(hello)
                     .timeout(Some(timeout))
                     .tls(tlscfg)
-                    .pool_config(PoolConfig::new().max_size(1))
-                    .build();
+                    .pool_config(PoolConfig::new().max_size(1));
+                if let Some(c) = creds {
+                    b = b.credentials(c);
+                }
+                let t = b.build();
                 for _ in 0..2 {
                     let t0 = std::time::Instant::now();
                     let r = t.send_raw(&env, b"m\r\n");
@@ -511,13 +537,16 @@ pub fn tstall(args: &[&str]) -> Option<Vec<String>> {
         "a" => {
             let rt = tokio::runtime::Builder::new_multi_thread().worker_threads(2).enable_all().build().ok()?;
             rt.block_on(async {
-                let t: AsyncSmtpTransport<Tokio1Executor> = AsyncSmtpTransport::<Tokio1Executor>::builder_dangerous(crate::util::lo())
+                let mut b = AsyncSmtpTransport::<Tokio1Executor>::builder_dangerous(crate::util::lo())
                     .port(port)
                     .hello_name(hello)
                     .timeout(Some(timeout))
                     .tls(tlscfg)
-                    .pool_config(PoolConfig::new().max_size(1))
-                    .build();
+                    .pool_config(PoolConfig::new().max_size(1));
+                if let Some(c) = creds {
+                    b = b.credentials(c);
+                }
+                let t: AsyncSmtpTransport<Tokio1Executor> = b.build();
                 for _ in 0..2 {
                     let t0 = std::time::Instant::now();
                     match tokio::time::timeout(cap, t.send_raw(&env, b"m\r\n")).await {
